@@ -8,6 +8,7 @@ import (
 	"mime"
 	"mime/multipart"
 	"net/http"
+	"path/filepath"
 	"sort"
 	"strings"
 	"time"
@@ -192,6 +193,19 @@ func genProgram(r *hk.Rand) *program {
 		nf := r.Range(0, 2)
 		for i := 0; i < nf; i++ {
 			f := mpFile{Param: hk.Pick(r, []string{"file", "doc"}), Name: hk.Pick(r, []string{"a.txt", "b.bin"}), Content: hk.Pick(r, bodies), Kind: "bytes"}
+			switch k := r.Intn(100); {
+			case k < 45: // SetFileBytes
+			case k < 60:
+				f.Kind = "path" // SetFile: opened when set, reopened on every retry
+			case k < 70:
+				f.Kind = "seekcloser" // SetFileReader with an io.ReadSeeker whose Close is a no-op
+			case k < 82:
+				f.Kind = "reader" // SetFileReader(strings.Reader)
+			case k < 90:
+				f.Kind = "buffer" // SetFileReader(bytes.Buffer): cannot be rewound
+			default:
+				f.Kind = "osfile" // SetFileReader(*os.File)
+			}
 			sh.MPFiles = append(sh.MPFiles, f)
 		}
 		if r.Chance(50) {
@@ -229,6 +243,8 @@ func genProgram(r *hk.Rand) *program {
 			oc = outcome{Kind: "deadline"}
 		case k < 96:
 			oc = outcome{Kind: "wrapcancel"}
+		case k < 98:
+			oc = outcome{Kind: "expired"}
 		default:
 			oc = outcome{Kind: "ctxcancel"}
 		}
@@ -241,7 +257,8 @@ func genProgram(r *hk.Rand) *program {
 
 // ---------- multipart canonical form ----------
 
-func canonMultipart(ct, body string) (string, bool) {
+// canonMultipart: mask = (form name, file name) pairs whose parts are left out.
+func canonMultipart(ct, body string, mask map[[2]string]bool) (string, bool) {
 	_, params, err := mime.ParseMediaType(ct)
 	if err != nil || params["boundary"] == "" {
 		return "", false
@@ -262,6 +279,9 @@ func canonMultipart(ct, body string) (string, bool) {
 			return "", false
 		}
 		b, _ := io.ReadAll(p)
+		if mask[[2]string{p.FormName(), p.FileName()}] {
+			continue
+		}
 		var hk []string
 		for k, vs := range p.Header {
 			hk = append(hk, fmt.Sprintf("%s=%q", k, vs))
@@ -361,8 +381,11 @@ func coqCalls(cs []callObs) string {
 // outside the Coq model (multipart bodies), which then is covered by the Go oracle only.
 func coqCase(p *program, o *observation) (string, bool) {
 	sh := &p.Shape
-	if sh.BodyKind == "multipart" || o.Panicked != "" || o.RespNil {
+	if o.Panicked != "" || o.RespNil {
 		return "", false
+	}
+	if sh.BodyKind == "multipart" {
+		return coqUpload(p, o)
 	}
 	client := fmt.Sprintf("(mkClient %s %s %s %s %s)", coqAmap(sh.CHeaders), coqCookies(sh.CCookies), coqAmap(sh.CForm), coqAmap(sh.CQuery), hk.CoqBool(!sh.DenyGetPay))
 	body, gb, reader, unrep := "None", "GBNil", "[]", "false"
@@ -443,9 +466,23 @@ func runC10(r *hk.Run) {
 	r.CheckFn = "c10_check"
 	r.Rule = "programs = client-level + request-level retry setters (count in {-1,0,1,2,3,5}, Set/Add condition, Set/Add hook, interval function) x request shape (client/request headers, cookies, query, form; body none/bytes/string/func/reader/readcloser/multipart; 8 methods) x 0-2 request-level after-response middlewares x outcome script of depth <= 6 (+ terminal cancel) executed on a real client over a scripted transport; backoff triples. Non-trivial: at least one retry happened (>= 2 attempts), or the call was refused up front, or a backoff triple with min,max > 0. Distinct by the program's JSON."
 	rng := hk.NewRand(r.Seed)
+	if err := setupUploads(filepath.Join(r.OutDir, "upload")); err != nil {
+		r.Notes = append(r.Notes, "upload files could not be written: "+err.Error())
+	}
+	if r.Replay != "" && replayC10(r) {
+		return
+	}
 	n := r.Scale(1500, 30000)
 	for i := 0; i < n; i++ {
-		p := genProgram(rng)
+		runProgram(r, genProgram(rng))
+	}
+	backoffCases(r, rng)
+	rawOrigin(r, rng)
+}
+
+// runProgram executes one program on the real client, applies the oracle, emits the Coq case.
+func runProgram(r *hk.Run, p *program) {
+	{
 		o := execute(p)
 		oracle(r, p, &o)
 		e := effectiveOf(p)
@@ -456,7 +493,7 @@ func runC10(r *hk.Run) {
 			return fmt.Sprint(e.N)
 		}()))
 		r.Count(fmt.Sprintf("attempts=%d", len(o.Wires)))
-		r.Count("body=" + p.Shape.BodyKind)
+		r.Count("body=" + bodySig(&p.Shape))
 		r.Count(fmt.Sprintf("conds=%d", len(e.Conds)))
 		r.Count(fmt.Sprintf("hooks=%d", len(e.Hooks)))
 		if len(p.After) > 0 {
@@ -470,8 +507,6 @@ func runC10(r *hk.Run) {
 		r.Add(hk.Case{Coq: coq, Desc: map[string]interface{}{"kind": "run", "program": p, "attempts": len(o.Wires), "final": []int{o.Status, o.Err}}},
 			string(key), len(o.Wires) >= 2 || o.UpFront)
 	}
-	backoffCases(r, rng)
-	rawOrigin(r, rng)
 }
 
 // backoffCases: the built-in interval function on (min, max, attempt) triples.
@@ -491,6 +526,13 @@ func backoffCases(r *hk.Run, rng *hk.Rand) {
 				mx = int64(rng.Intn(100000))
 			}
 		}
+		backoffOne(r, mn, mx, a)
+	}
+}
+
+// backoffOne: one (min, max, attempt) triple of the built-in interval function.
+func backoffOne(r *hk.Run, mn, mx int64, a int) {
+	for once := true; once; once = false {
 		d, pan := req.VerifC10Backoff(time.Duration(mn), time.Duration(mx), a)
 		in := map[string]interface{}{"min_ns": mn, "max_ns": mx, "attempt": a}
 		shape := func() string {
